@@ -27,6 +27,7 @@ type verifAdmScn struct {
 	Size      string `json:"size"`
 	LenMode   string `json:"lenmode"`
 	Route     string `json:"route"`
+	Global    int    `json:"global"`
 }
 
 // verifAdmBody: a valid chat request of exactly n bytes.
@@ -103,7 +104,7 @@ func TestVerif_Admission(t *testing.T) {
 		stk, err := verifBoot("sherpa", "priority", "auto", opts, func(c *config.Config) {
 			c.Server.RateLimits.PerIPRequestsPerMinute = sc.Rate
 			c.Server.RateLimits.BurstSize = sc.Burst
-			c.Server.RateLimits.GlobalRequestsPerMinute = 0
+			c.Server.RateLimits.GlobalRequestsPerMinute = sc.Global
 			c.Server.RateLimits.HealthRequestsPerMinute = 0
 			if sc.Behaviour == "drainwait" {
 				// the limiter's housekeeping runs many times during the scenario: a bucket it forgets too early
@@ -239,6 +240,15 @@ func TestVerif_Admission(t *testing.T) {
 			record(id, ip, send, recv, st, len(body), "cl", "mix")
 		}
 		switch sc.Behaviour {
+		case "mixhealth":
+			// health-endpoint requests between the proxied ones: they neither use up nor hand out proxy tokens
+			for i := 0; i < 40 && time.Now().Before(deadline); i++ {
+				if i%2 == 1 {
+					zzverif.Do(stk.addr, &zzverif.Req{Method: "GET", Target: "/internal/health", Timeout: 5 * time.Second})
+					continue
+				}
+				oneShot("127.0.0.1")
+			}
 		case "drainwait":
 			// use up the burst, stay silent across several housekeeping sweeps, come back
 			for round := 0; round < 2; round++ {
